@@ -477,7 +477,14 @@ pub fn generate(opts: &VoiceOpts, pool: &QuestionPool, rng: &mut Rng) -> VoiceSp
             } else {
                 // LSP: [gain, w1..wm], increasing and well separated
                 let m = vlen - 1;
-                mean[0] = if ln_gain { f32r(rng, -1.0, 1.0) } else { f32r(rng, 0.5, 2.0) };
+                // (linear gains include quiet voices)
+                mean[0] = if ln_gain {
+                    f32r(rng, -1.0, 1.0)
+                } else if opts.opt_order == 2 {
+                    f32r(rng, 0.02, 0.3)
+                } else {
+                    f32r(rng, 0.5, 2.0)
+                };
                 for i in 1..=m {
                     let w = std::f64::consts::PI * (i as f64 + rng.uniform(-0.2, 0.2)) / (m as f64 + 1.0);
                     mean[i] = w as f32;
@@ -496,7 +503,14 @@ pub fn generate(opts: &VoiceOpts, pool: &QuestionPool, rng: &mut Rng) -> VoiceSp
             mean
         },
     );
-    let mut mcp_opts = vec![format!("ALPHA={}", opts.alpha)];
+    // (an all-pass constant of 0 may be left out; keys the engine does not know may be present)
+    let mut mcp_opts = if opts.alpha == 0.0 && opts.opt_order % 2 == 0 { vec![] } else { vec![format!("ALPHA={}", opts.alpha)] };
+    if opts.opt_order == 3 {
+        mcp_opts.push("BETA=0.4".to_string());
+    }
+    if opts.opt_order == 0 && opts.alpha != 0.0 {
+        mcp_opts.push("SPEED=1.5".to_string());
+    }
     // (with the mel-cepstral filter the two options may be left out, or be spelled out)
     if stage != 0 || opts.opt_order % 2 == 1 {
         mcp_opts.push(format!("GAMMA={}", stage));
@@ -578,7 +592,13 @@ pub fn generate(opts: &VoiceOpts, pool: &QuestionPool, rng: &mut Rng) -> VoiceSp
         vector_length: lv,
         is_msd: true,
         use_gv: gv_lf0.is_some(),
-        options: vec![],
+        // (options on a stream other than the spectrum are the voice author's business: the
+        // engine's filter settings come from the spectrum stream alone)
+        options: if opts.opt_order == 4 || opts.opt_order == 1 {
+            vec!["GAMMA=2".to_string(), "LN_GAIN=1".to_string(), "ALPHA=0.3".to_string()]
+        } else {
+            vec![]
+        },
         windows: wins,
         model: lf0_model,
         gv: gv_lf0,
@@ -615,7 +635,7 @@ pub fn generate(opts: &VoiceOpts, pool: &QuestionPool, rng: &mut Rng) -> VoiceSp
             vector_length: n,
             is_msd: false,
             use_gv: gv_lpf.is_some(),
-            options: vec![],
+            options: if opts.opt_order == 5 { vec!["ALPHA=0.25".to_string(), "BETA=0.4".to_string()] } else { vec![] },
             windows: if opts.lpf_win_padded { vec![vec![0.0, 1.0, 0.0]] } else { vec![vec![1.0]] },
             model: lpf_model,
             gv: gv_lpf,
